@@ -58,7 +58,27 @@ def _test_kinds(fn_node, test, param):
                 else:
                     return None
             return ks
+    if isinstance(test, ast.BoolOp) and isinstance(test.op, ast.And):
+        # a conjunction that narrows a kind test on the parameter (`isinstance(value, tuple) and hasattr(value, "_make")`):
+        # a kind of its own, outside the modelled ones; the two recursions have to agree on it literally
+        atoms = []
+        for v in test.values:
+            c = v.operand if isinstance(v, ast.UnaryOp) and isinstance(v.op, ast.Not) else v
+            if isinstance(c, ast.Call) and q.call_name(c) in ("isinstance", "hasattr", "issubclass") and c.args and \
+                    any(isinstance(x, ast.Name) and _alias_of_param(fn_node, x.id, param) for x in ast.walk(c.args[0])):
+                atoms.append(c)
+            elif _test_kinds(fn_node, v, param) is not None:
+                atoms.append(v)
+        if atoms and len(atoms) == len(test.values):
+            txt = q.src(test)
+            for n in sorted(set(x.id for x in ast.walk(test) if isinstance(x, ast.Name) and _alias_of_param(fn_node, x.id, param)), key=len, reverse=True):
+                txt = txt.replace(n, "_")
+            return {"other:" + txt}
     return None
+
+
+def foreign(ks):
+    return set(k for k in ks if k.startswith("other:"))
 
 
 def _ends_flow(stmts):
@@ -192,6 +212,8 @@ def unwrap_rules(R, prefix, order_only=False):
                 if not order_only:
                     R.check(v is None or q.is_none(v), prefix + ".SHAPE", key, rsite, "None stays None", "None is not unwrapped to None")
                 continue
+            if foreign(ks):
+                continue        # decided by the agreement rule: extract_futures has to have the same arm
             if ks == {"future"}:
                 if not order_only:
                     okf = isinstance(v, ast.Call) and q.attr_call(v)[1] == "value" and isinstance(q.attr_call(v)[0], ast.Name) \
@@ -304,6 +326,8 @@ def extract_rules(R, prefix):
         body = [b for b in body if not isinstance(b, ast.Pass)] or [ast.Pass()]
         if ks == {"none"}:
             continue
+        if foreign(ks):
+            continue
         if ks == {"future"}:
             ok = len(body) == 1 and isinstance(body[0], ast.Expr) and isinstance(body[0].value, ast.Call) and \
                 q.call_name(body[0].value) == acc + ".append" and q.src(body[0].value.args[0]) == param
@@ -396,6 +420,8 @@ def agree_rule(R, prefix, unwrap_kinds, extract_kinds, direction_attr):
     'await' -> kinds unwrap handles but extract does not (C03/C04)."""
     fi_u = R.repo.fn("async_task.unwrap")
     fi_e = R.repo.fn("async_task.extract_futures")
+    both = foreign(unwrap_kinds) & foreign(extract_kinds)
+    R.need(not both, "idiom: both recursions handle a container kind outside the modelled ones (%s): no shape rule for it" % sorted(both))
     if direction_attr == "value":
         missing = extract_kinds - unwrap_kinds
         R.check(not missing, prefix + ".AGREE-STRUCT", "unwrap:missing:%s" % ",".join(sorted(missing)), R.site(fi_u),
